@@ -4,7 +4,7 @@ use crate::util::*;
 use crate::{Opts, Outcome};
 use std::collections::HashMap;
 
-fn c07_one(recs: &[Vec<u8>], k: usize, threads: usize, mem: f64, acgt: bool) -> Option<Vec<(String, String)>> {
+pub fn c07_one(recs: &[Vec<u8>], k: usize, threads: usize, mem: f64, acgt: bool) -> Option<Vec<(String, String)>> {
     let sc = Scratch::new("ctr");
     let inp = sc.path("in.fa");
     let outd = sc.path("out");
